@@ -35,7 +35,7 @@ def stemOf (s5 : List Entry) (all : List Entry) (db : List Char) : StemEl :=
   let s3 := all.filter (fun e => paired.contains e.idx)
   ⟨strandOf s5 db, strandOf s3 db⟩
 
-inductive SSKind where | five | three | plain
+inductive SSKind where | five | three | plain | both
 deriving DecidableEq, Repr
 
 structure Elements where
@@ -72,7 +72,8 @@ def followChain (cands : List Strand) (succ : Nat → List Nat) (used : List Str
 
 def elements (es : List Entry) (db : List Char) : Elements :=
   let groups := stemsEntries es
-  if groups.isEmpty then ⟨[], [], [], []⟩ else
+  if groups.isEmpty then
+    (if es.isEmpty then ⟨[], [], [], []⟩ else ⟨[], [(strandOf es db, .both)], [], []⟩) else
   let stems := groups.map (fun g => stemOf g es db)
   let stops := sortDedup (stems.flatMap (fun s => [s.s5.first - 1, s.s5.last - 1, s.s3.first - 1, s.s3.last - 1]))
   let s0 := stops.headD 0
@@ -119,6 +120,7 @@ def Elements.describe (e : Elements) : List String :=
   e.singles.map (fun (s, k) =>
     match k with
     | .five => s!"SingleStrand5p {strandText s}"
+    | .both => s!"SingleStrand5p {strandText s}"
     | .three => s!"SingleStrand3p {strandText s}"
     | .plain => s!"SingleStrand {strandText s}") ++
   e.hairpins.map (fun s => s!"Hairpin {strandText s}") ++
